@@ -161,7 +161,7 @@ func (tr TxRequest) commitTo(db xkv.Atomic) (err error) {
 	defer func() {
 		tr.Operations = nil
 		if err != nil {
-			err = b.Close()
+			err = errors.Combine(err, b.Close())
 		} else if _err := b.Commit(tr.Context); _err != nil {
 			err = _err
 		}
